@@ -298,7 +298,7 @@ CHECKS = {
         "bound": "concatenations of <= 6 names (letter + digits incl. leading zeros)"},
     "registry.identity_and_freshness": {
         "function": "adcgen.indices:Indices.get_generic_indices", "cases": registry_cases,
-        "check": registry_check, "bound": "random histories of <= 6 requests (named / generic, with spin)"},
+        "check": registry_check, "bound": "20 (200) random request histories of <= 6 operations on the process wide registry: explicit names (the returned list is emptied by its owner), names waiting in the pool, names of the next generation followed by a large generic request, generic requests of 1-12 indices"},
     "substitute_contracted.spec": {
         "function": "adcgen.expr_container:Term.substitute_contracted", "cases": subst_cases,
         "check": subst_check, "bound": "random terms of <= 3 objects: targets untouched, lowest names, value; substitute_with_generic: fresh names, value"},
